@@ -141,7 +141,7 @@ pub fn c01(ctx: &Ctx) -> (CheckMeta, Outcome) {
     let meta = CheckMeta {
         property: "C01".into(),
         level: "model_checking".into(),
-        rule: "explicit-state BFS over the real BufBitWriter (recording backend; state = Debug string (buffer, space_left) + model pending bits; rebuilt by replaying the shortest history) for E x W in {8,16,32,64,128}; alphabet write_bits(n 0..=64 x 4 value patterns x {clean, bit n set, all bits >= n set}), write_unary(0..=2W+1, 3W-1, 3W, 3W+1, 5W+3), flush; every transition: return value and words delivered during the step vs the bit-vector model; every node's history is replayed on vec/vecref/slice/adapter/adapter-over-a-3-byte-sink/adapter-over-a-lazy-sink (commits on flush only)/rec backends with flush, flush;flush, into_inner, drop and the whole byte image compared (traces_validated_against_impl counts these replays); plus a deep-and-narrow exploration (7-letter alphabet: 1 bit, W-1 ones, 64 bits, 7 dirty bits, unary 0, unary W, flush; depth 7, thorough 9); plus long streams: unary codes of 32 767..70 001 zeros (thorough up to 262 149), alone, between writes and across a flush, and 1 200 fixed-width writes, on every real backend; plus unary codes around and beyond 2^32 (x in 2^32-2, 2^32-1, 2^32, 2^32+1, 2^32+W-2, 2^32+W; thorough more and all word sizes) after 0, 1, W/2, W-1 pending bits into a sink that keeps only the non-zero words and the word count".into(),
+        rule: "explicit-state BFS over the real BufBitWriter (recording backend; state = Debug string (buffer, space_left) + model pending bits; rebuilt by replaying the shortest history) for E x W in {8,16,32,64,128}; alphabet write_bits(n 0..=64 x 4 value patterns x {clean, bit n set, all bits >= n set}), write_unary(0..=2W+1, 3W-1, 3W, 3W+1, 5W+3), flush; every transition: return value and words delivered during the step vs the bit-vector model; every node's history is replayed on vec/vecref/slice/adapter/adapter-over-a-3-byte-sink/adapter-over-a-lazy-sink (commits on flush only)/rec/vec-over-a-pre-filled-vector backends with flush, flush;flush, into_inner, drop, drop-while-unwinding and the whole byte image compared (traces_validated_against_impl counts these replays); plus a deep-and-narrow exploration (7-letter alphabet: 1 bit, W-1 ones, 64 bits, 7 dirty bits, unary 0, unary W, flush; depth 7, thorough 9); plus long streams: unary codes of 32 767..70 001 zeros (thorough up to 262 149), alone, between writes and across a flush, and 1 200 fixed-width writes, on every real backend; plus unary codes around and beyond 2^32 (x in 2^32-2, 2^32-1, 2^32, 2^32+1, 2^32+W-2, 2^32+W; thorough more and all word sizes) after 0, 1, W/2, W-1 pending bits into a sink that keeps only the non-zero words and the word count".into(),
         assumptions: vec!["reference model = canonical layout (harness/src/model.rs)".into(), "by parametricity in the WordWrite backend the writer's future depends on (buffer, space_left) only".into()],
     };
     (meta, out)
@@ -350,10 +350,11 @@ pub fn c14(ctx: &Ctx) -> (CheckMeta, Outcome) {
     let mut out = crate::props::readers::c14_read(ctx);
     out.merge(c14_write(ctx));
     out.merge(wrapper_grid(ctx, "C14"));
+    out.merge(c14_unwrap(ctx));
     let meta = CheckMeta {
         property: "C14".into(),
         level: "model_checking".into(),
-        rule: "the reader BFS (to the fixpoint) and the writer BFS (depth 3) are re-run with the object wrapped in CountBitReader/CountBitWriter and DbgBitReader/DbgBitWriter; alphabet = every trait method reachable through the wrapper: read_bits/peek/skip/unary, the parameterless gamma/delta/zeta methods, every table-parameterised variant (which reach the stream through the wrapper's peek_bits/skip_bits_after_peek), omega, pi, rice, golomb, exp-golomb, minimal binary, vbyte, copy_to/copy_from, flush; oracle: values, delivered words and positions identical to the unwrapped model; bits_read = bits consumed since the wrapper was created (= inner bit_pos when created at 0; the wrapper is also created on a reader that has already consumed 13 bits, and seeks through the wrapper are explored to depth 3 with the positions checked) and bits_written = bits written by operations, after EVERY transition including flushes; plus a grid through the Count wrappers: every code x parameter of the C03 grid (zeta/pi/rice/exp-golomb 0..=63, Golomb and minimal-binary moduli up to 2^64-1, vbyte) x its boundary values (every 2^i-2..2^i+2, length steps, maxima), written through CountBitWriter and DbgBitWriter after 5 pending bits (returned length, counter, bytes delivered) and read through CountBitReader (every table variant the reader admits) at bits 0 and 5: value, position and counter".into(),
+        rule: "the reader BFS (to the fixpoint) and the writer BFS (depth 3) are re-run with the object wrapped in CountBitReader/CountBitWriter and DbgBitReader/DbgBitWriter; alphabet = every trait method reachable through the wrapper: read_bits/peek/skip/unary, the parameterless gamma/delta/zeta methods, every table-parameterised variant (which reach the stream through the wrapper's peek_bits/skip_bits_after_peek), omega, pi, rice, golomb, exp-golomb, minimal binary, vbyte, copy_to/copy_from, flush; oracle: values, delivered words and positions identical to the unwrapped model; bits_read = bits consumed since the wrapper was created (= inner bit_pos when created at 0; the wrapper is also created on a reader that has already consumed 13 bits, and seeks through the wrapper are explored to depth 3 with the positions checked) and bits_written = bits written by operations, after EVERY transition including flushes; plus a grid through the Count wrappers: every code x parameter of the C03 grid (zeta/pi/rice/exp-golomb 0..=63, Golomb and minimal-binary moduli up to 2^64-1, vbyte) x its boundary values (every 2^i-2..2^i+2, length steps, maxima), written through CountBitWriter and DbgBitWriter after 5 pending bits (returned length, counter, bytes delivered) and read through CountBitReader (every table variant the reader admits) at bits 0 and 5: value, position and counter; unwrapping (into_inner) after every prefix length 0..=W+1 and continuing on the inner reader/writer, for both values of the wrappers' PRINT parameter".into(),
         assumptions: vec!["flush padding is not counted as written bits (flush reports pending bits, which were counted when written)".into()],
     };
     (meta, out)
@@ -400,7 +401,7 @@ pub fn long_histories(prop: &'static str, ctx: &Ctx, with_io: bool) -> Outcome {
                     let combos: Vec<(&str, &str)> = if thorough {
                         REAL_BACKENDS.iter().flat_map(|b| FINISHERS.iter().map(move |f| (*b, *f))).collect()
                     } else {
-                        vec![("vec", "into_inner"), ("vecref", "drop"), ("slice", "flush2"), ("adapter", "into_inner"), ("adapter3", "flush"), ("adapterlazy", "flush"), ("rec", "drop")]
+                        vec![("vec", "into_inner"), ("vecref", "drop"), ("slice", "flush2"), ("adapter", "into_inner"), ("adapter3", "flush"), ("adapterlazy", "flush"), ("rec", "drop"), ("rec", "drop_unwind"), ("vecpre", "into_inner"), ("vecpre", "flush")]
                     };
                     for (backend, finisher) in combos {
                         out.cov.transitions += h.len() as u64;
@@ -627,6 +628,145 @@ pub fn wrapper_grid(ctx: &Ctx, prop: &'static str) -> Outcome {
                             let run = RdRun { property: prop, model: &model, image: &bytes, alphabet: &alphabet, max_states: 1000, check_counter: true, max_depth: 2 };
                             out.merge(rexplore(&run, rd));
                         }
+                    }
+                }
+                out
+            }));
+        }
+    }
+    run_all(tasks, threads())
+}
+
+
+/// Unwrapping a counting wrapper must hand back the inner stream exactly where it stands: every
+/// prefix length 0..=W+1 written (read) through the wrapper, `into_inner`, then the sentinel on the
+/// inner writer (20 more bits from the inner reader).  Both values of the PRINT parameter.
+pub fn c14_unwrap(_ctx: &Ctx) -> Outcome {
+    use crate::model::Bits;
+    use crate::report::Violation;
+    use dsi_bitstream::prelude::*;
+    let mut tasks: Vec<Task> = vec![];
+    for e in End::BOTH {
+        for wbits in WBITS {
+            tasks.push(Box::new(move || {
+                let mut out = Outcome::new();
+                let cfg = format!("{}/w{}/count/unwrap", e.name(), wbits);
+                out.cov.configs.insert(cfg.clone());
+                let image: Vec<u8> = (0..64u32).map(|i| (i.wrapping_mul(0x9D).wrapping_add(0x37) >> 1) as u8 ^ 0xA6).collect();
+                let mbits = Bits::from_bytes(&image, e);
+                let mut report = |out: &mut Outcome, system: &str, sym: &str, d: String| {
+                    if out.violations.len() < 12 {
+                        out.violations.push(Violation { property: "C14".into(), system: system.into(), config: cfg.clone(), op_class: "into_inner".into(), symptom: sym.into(), detail: d, replay: serde_json::json!({"kind": "none"}) });
+                    }
+                };
+                macro_rules! go_w {
+                    ($E:ty, $W:ty, $PRINT:expr) => {{
+                        for f in 0..=(wbits + 1) {
+                            let mut ops: Vec<WOp> = vec![];
+                            let mut left = f;
+                            while left > 0 {
+                                let c = left.min(61);
+                                ops.push(WOp::WriteBits { v: 0x6B8B_4567_327B_23C6 & mask(c as u8), n: c as u8 });
+                                left -= c;
+                            }
+                            let rec = Rec::<$W>::new();
+                            let log = rec.log.clone();
+                            let r = std::panic::catch_unwind(std::panic::AssertUnwindSafe(|| -> Result<u64, String> {
+                                let mut cw = CountBitWriter::<$E, _, $PRINT>::new(BufBitWriter::<$E, _>::new(rec));
+                                for op in &ops {
+                                    if let WOp::WriteBits { v, n } = op {
+                                        cw.write_bits(*v, *n as usize).map_err(|e| format!("{e}"))?;
+                                    }
+                                }
+                                let counted = cw.bits_written as u64;
+                                let mut inner = cw.into_inner();
+                                inner.write_bits(0b1011001, 7).map_err(|e| format!("{e}"))?;
+                                BitWrite::<$E>::flush(&mut inner).map_err(|e| format!("{e}"))?;
+                                Ok(counted)
+                            }));
+                            ops.push(WOp::WriteBits { v: 0b1011001, n: 7 });
+                            ops.push(WOp::Flush);
+                            let (model, _, _) = model_history(&ops, e, wbits);
+                            let want = model.to_bytes(e, wbits);
+                            out.cov.evaluations += 1;
+                            out.cov.nontrivial += 1;
+                            out.cov.transitions += ops.len() as u64 + 1;
+                            match r {
+                                Err(p) => report(&mut out, "writer", "panic", format!("PRINT={}: {}", $PRINT, crate::util::panic_msg(&p))),
+                                Ok(Err(m)) => report(&mut out, "writer", "error", format!("PRINT={}: {}", $PRINT, m)),
+                                Ok(Ok(c)) if c != f as u64 => report(&mut out, "writer", "counter", format!("PRINT={}: bits_written = {} after {} bits", $PRINT, c, f)),
+                                Ok(Ok(_)) => {
+                                    let got = log.borrow().clone();
+                                    if got != want {
+                                        report(&mut out, "writer", "bytes", format!("PRINT={}: after {} bits through the wrapper, into_inner() and 7 more bits on the inner writer the stream is {} (expected {})", $PRINT, f, crate::util::hex(&got), crate::util::hex(&want)));
+                                    }
+                                }
+                            }
+                        }
+                    }};
+                }
+                macro_rules! go_r {
+                    ($E:ty, $W:ty, $PRINT:expr) => {{
+                        for f in 0..=(wbits + 1) {
+                            let words = crate::rd::words_from_bytes::<$W>(&image);
+                            let r = std::panic::catch_unwind(std::panic::AssertUnwindSafe(|| -> Result<(u64, u64, u64), String> {
+                                let mut cr = CountBitReader::<$E, _, $PRINT>::new(BufBitReader::<$E, _>::new(MemWordReader::<$W, _, false>::new_strict(words)));
+                                let mut left = f;
+                                while left > 0 {
+                                    let c = left.min(61);
+                                    cr.read_bits(c).map_err(|e| format!("{e}"))?;
+                                    left -= c;
+                                }
+                                // a look-ahead through the wrapper just before unwrapping (buffered bits must survive)
+                                let _ = cr.peek_bits(1);
+                                let counted = cr.bits_read as u64;
+                                let mut inner = cr.into_inner();
+                                let v = inner.read_bits(20).map_err(|e| format!("{e}"))?;
+                                let p = BitSeek::bit_pos(&mut inner).map_err(|e| format!("{e}"))?;
+                                Ok((counted, v, p))
+                            }));
+                            let wantv = mbits.field(f, 20, e, false).unwrap() as u64;
+                            out.cov.evaluations += 1;
+                            out.cov.nontrivial += 1;
+                            out.cov.transitions += 4;
+                            match r {
+                                Err(p) => report(&mut out, "reader", "panic", format!("PRINT={}: {}", $PRINT, crate::util::panic_msg(&p))),
+                                Ok(Err(m)) => report(&mut out, "reader", "error", format!("PRINT={}: {}", $PRINT, m)),
+                                Ok(Ok((c, v, p))) => {
+                                    if c != f as u64 {
+                                        report(&mut out, "reader", "counter", format!("PRINT={}: bits_read = {} after {} bits", $PRINT, c, f));
+                                    } else if v != wantv || p != f as u64 + 20 {
+                                        report(&mut out, "reader", "value", format!("PRINT={}: after {} bits through the wrapper and into_inner() the inner reader returned {:#x} and stands at {} (expected {:#x} at {})", $PRINT, f, v, p, wantv, f + 20));
+                                    }
+                                }
+                            }
+                        }
+                    }};
+                }
+                macro_rules! both {
+                    ($E:ty, $W:ty) => {{
+                        go_w!($E, $W, false);
+                        go_w!($E, $W, true);
+                        go_r!($E, $W, false);
+                        go_r!($E, $W, true);
+                    }};
+                }
+                match (e, wbits) {
+                    (End::BE, 8) => both!(BE, u8),
+                    (End::BE, 16) => both!(BE, u16),
+                    (End::BE, 32) => both!(BE, u32),
+                    (End::BE, 64) => both!(BE, u64),
+                    (End::BE, _) => {
+                        go_w!(BE, u128, false);
+                        go_w!(BE, u128, true);
+                    }
+                    (End::LE, 8) => both!(LE, u8),
+                    (End::LE, 16) => both!(LE, u16),
+                    (End::LE, 32) => both!(LE, u32),
+                    (End::LE, 64) => both!(LE, u64),
+                    (End::LE, _) => {
+                        go_w!(LE, u128, false);
+                        go_w!(LE, u128, true);
                     }
                 }
                 out
